@@ -43,6 +43,17 @@ def make_instr(tag, log):
 
         def on_field_end(self, root, context, info):
             log.append(("field", tuple(info.path), "end", tag))
+    # how a member of a stack comes by its hooks must not matter: defined on its class, inherited from a base, or a nested stack
+    if tag.endswith("1"):
+        class Inherits(Rec):
+            pass
+        return Inherits()
+    if tag.endswith("2"):
+        from py_gql.execution import MultiInstrumentation
+
+        class Nested(MultiInstrumentation):
+            pass
+        return Nested(Rec())
     return Rec()
 
 
@@ -132,7 +143,8 @@ def check_field_trace(log, res_log, tags, mw_tags, expected_paths):
             enters = [ev[3] for ev in log if ev[0] == "mw" and ev[1] == path and ev[2] == "enter"]
             if enters != list(reversed(mw_tags)):
                 out.append("field %r: middlewares entered in order %r, documented nesting (last listed outermost) gives %r" % (path, enters, list(reversed(mw_tags))))
-    extra = {ev[1] for ev in log if ev[0] == "field"} - set(expected_paths)
+    # (introspection fields are resolved fields too, but the reference executor delegates them: not compared here)
+    extra = {ev[1] for ev in log if ev[0] == "field" and not any(isinstance(k, str) and k.startswith("__") for k in ev[1])} - set(expected_paths)
     if extra:
         out.append("field hooks fired for paths that are not resolved fields: %r" % (sorted(extra, key=repr)[:3],))
     return out
@@ -200,6 +212,10 @@ REQUESTS = [
     ("{ me { name strict } people { name } }", {}, "ok"),
     ("{ me { pets { ... on Dog { name } ... on Cat { lives } } } }", {}, "ok"),
     ("mutation { a(n: 1) b { name } d }", {}, "ok"),
+    # meta fields next to ordinary ones: every ordinary field still passes through every middleware, whatever was resolved before it
+    ("{ __typename me { __typename name } count }", {}, "ok"),
+    ("{ __type(name: \"Person\") { name kind } me { name age } }", {}, "ok"),
+    ("{ __schema { queryType { name } } people { name } }", {}, "ok"),
     ("{ me { name ", {}, "syntax"),
     ('{ echo(s: "\\', {}, "syntax"),
     ("{ nope }", {}, "validation"),
@@ -246,5 +262,8 @@ def check(tier, seed):
     run.sample({"request": REQUESTS[0][0], "trace": "query+ parsing+ parsing- validation+ validation- execution+ field(me)+ ... execution- query-"})
     run.assume("callbacks are atomic in the stand-in; middleware nesting and ResolutionContext._resolver_cache are bounded only")
     engine_p.run(run, 'C16')
+    # middlewares are applied when the wrapped resolver is memoised per base resolver: the memo key must determine everything the wrapping depends on
+    from vf import memocheck
+    memocheck.run(run, only=("Executor.field_resolver",))
     return run.finish("other", "trace contracts over every syntactic path of the real function (Engine P, unbounded in the inputs, values abstracted) + bounded stand-in: hook / middleware trace contracts evaluated on every enumerated request outcome, runtime and completion order",
                       checker_cmd="./check C16 --tier %s" % tier)
